@@ -282,7 +282,7 @@ def run_script(binary, steps, trace_path=None, drain_ms=20, prefix=None, cwd=Non
         do = st["do"]
         if do == "send":
             extra = dict(st.get("extra") or {})
-            if st["line"].startswith("position"):
+            if st["line"].split()[:1] == ["position"]:
                 pl = position_payload(st["line"])
                 if pl:
                     extra["position"] = pl
@@ -295,7 +295,7 @@ def run_script(binary, steps, trace_path=None, drain_ms=20, prefix=None, cwd=Non
             if ev is not None:
                 s.drain(drain_ms)
         elif do == "isready":
-            s.send("isready", {"isready": True})
+            s.send(st.get("line", "isready"), {"isready": True})
             s.wait_for("readyok", st.get("wait_ms", 3000))
         elif do == "raw_isready_eof":
             # `isready` without a line terminator, then end of input: the command is still a command
